@@ -269,15 +269,32 @@ def run(ctx):
         "deterministic rule bodies (the property text speaks about applicable rules, not about probabilistic bodies)",
         "everything C15 assumes about sort/2 (generated model of struct_cmp, CPython sorted/set)",
     ]
-    generate(ctx)
-    ctx.prove("C33/Props.v")
-    ctx.log("Props.v: %d/%d" % (ctx.cov["discharged"], ctx.cov["obligations"]))
-    okf, _ = optional_build(ctx, "C33/Findings.v")
-    ctx.cov["findings_files"] = {"C33/Findings.v": "compiles (r(10) preferred to r(2) on the model)" if okf
-                                 else "does not compile (known finding no longer reproduces)"}
-    if not okf:
-        ctx.prove("C33/PropsFixed.v")
-        ctx.log("PropsFixed.v: obligations now %d/%d" % (ctx.cov["discharged"], ctx.cov["obligations"]))
+    # translators are fail-closed; a failure is a broken obligation, NOT the end of the check: the judge below runs on
+    # the real library in any case and looks for the concrete failing input.
+    model_ok = True
+    for what, fn in (("gen/c15_structcmp.py cannot translate engine_builtin.py", lambda: ctx.generate("C15/GenStructCmp.v", c15_structcmp.generate(vf.REPO))),
+                     ("gen/c33_libcut.py cannot translate library/cut.pl", lambda: ctx.generate("C33/GenLibCut.v", c33_libcut.generate(vf.REPO)))):
+        try:
+            fn()
+        except Exception as e:  # noqa
+            model_ok = False
+            ctx.broken.append("translator:%s (%s: %s)" % (what, type(e).__name__, str(e)[:300]))
+            ctx.notes.append("translator failed: %s: %s" % (type(e).__name__, e))
+            ctx.log("translator failed: %s" % str(e)[:200])
+    if model_ok:
+        try:
+            ctx.prove("C33/Props.v")
+        except Exception as e:  # noqa
+            ctx.broken.append("proof-cone:C33/Props.v (%s: %s)" % (type(e).__name__, str(e)[:300]))
+        ctx.log("Props.v: %d/%d" % (ctx.cov["discharged"], ctx.cov["obligations"]))
+    else:
+        # a stale generated model proves nothing about this source: the obligations stay undischarged
+        try:
+            import re
+            with open(os.path.join(vf.THEORIES, "C33", "Props.v")) as f:
+                ctx.cov["obligations"] += len(re.findall(r"^\s*(?:Theorem|Corollary)\s", vf.strip_coq_comments(f.read()), re.M))
+        except OSError:
+            pass
 
     if ctx.replay:
         replay(ctx, ctx.replay.get("replay", ctx.replay))
@@ -295,6 +312,9 @@ def run(ctx):
     # seeded example of the documented use and of the known failure shape
     sets[0] = (0, [{"index": 10, "pat": "a", "kind": "fact", "k": "0_0"}, {"index": 2, "pat": "a", "kind": "fact", "k": "0_1"},
                    {"index": 3, "pat": "b", "kind": "fact", "k": "0_2"}])
+    if nsets > 1:
+        sets[1] = (1, [{"index": 12, "pat": "X", "kind": "fact", "k": "1_0"}, {"index": 4, "pat": "X", "kind": "ok", "k": "1_1"},
+                       {"index": 1, "pat": "b", "kind": "no", "k": "1_2"}])
     B = 25
     obs = {}
     for part in pl.pmap(run_sets, [sets[lo:lo + B] for lo in range(0, len(sets), B)], chunksize=1):
@@ -313,7 +333,7 @@ def run(ctx):
             j = judge(rules, inp, ob)
             if j is not None:
                 bad.setdefault(j[0], []).append((rules, inp, j[1]))
-            if "EXC" not in ob:
+            if "EXC" not in ob and model_ok:
                 cs = coq_case(rules, inp, ob)
                 cases += cs
                 metas += [(rid, inp, "cut/2"), (rid, inp, "cut/1")]
@@ -330,19 +350,22 @@ def run(ctx):
             ctx.violation("cut(r(%s,O)) over the clauses %s: %s" % (inp or "X", " ".join(show_rules(small)), j[1] if j else what),
                           {"rules": small, "input": inp, "program": show_rules(small)}, klass=None if k == "?" else k)
     ctx.log("engine: %d calls, %d disagree with the property" % (nsets * len(INPUTS), sum(len(v) for v in bad.values())))
-    try:
-        shard = len(cases) if ctx.tier == "quick" else max(100, (len(cases) + 7) // 8)
-        badc = ctx.coq_failing(coq_header(), cases, name="cut", shard=shard, timeout=1500, jobs=6)
-    except RuntimeError as e:
-        ctx.broken.append("correspondence:C33 cases do not evaluate in Coq")
-        ctx.notes.append(str(e))
-        badc = []
-    ctx.cov["model_vs_library"] = "%d/%d observations agree with cut_m" % (len(cases) - len(badc), len(cases))
-    byid = dict(sets)
-    for b in badc[:3]:
-        rid, inp, which = metas[b]
-        ctx.broken.append("correspondence:ModelCut.cut_m differs from library(cut) %s on input %s over %s"
-                          % (which, inp or "unbound", " ".join(show_rules(byid[rid]))))
-    ctx.log("coq side: %d cases, %d bad" % (len(cases), len(badc)))
-    if ctx.tier == "thorough":
+    if cases:
+        try:
+            shard = len(cases) if ctx.tier == "quick" else max(100, (len(cases) + 7) // 8)
+            badc = ctx.coq_failing(coq_header(), cases, name="cut", shard=shard, timeout=1500, jobs=6)
+        except RuntimeError as e:
+            ctx.broken.append("correspondence:C33 cases do not evaluate in Coq")
+            ctx.notes.append(str(e))
+            badc = []
+        ctx.cov["model_vs_library"] = "%d/%d observations agree with cut_m" % (len(cases) - len(badc), len(cases))
+        byid = dict(sets)
+        for b in badc[:3]:
+            rid, inp, which = metas[b]
+            ctx.broken.append("correspondence:ModelCut.cut_m differs from library(cut) %s on input %s over %s"
+                              % (which, inp or "unbound", " ".join(show_rules(byid[rid]))))
+        ctx.log("coq side: %d cases, %d bad" % (len(cases), len(badc)))
+    else:
+        ctx.cov["model_vs_library"] = "not evaluated (no generated model for this source)"
+    if ctx.tier == "thorough" and model_ok:
         ctx.coqchk("PL.C33.Props")
